@@ -251,10 +251,12 @@ def classify_C13(case, failure):
         items = case[2] if kind == 'idlist' else case[3]
         classes = {_c13_item_class(a) for a in items} - {None}
         if what == 'function-parameters' and kind == 'func':
+            # (an argument that is an operation with a CASE / parenthesised operand is not ONE Operation node, so the
+            # argument list - even of a single argument - comes back in pieces: same class as the list finding)
+            if classes & _C13_LISTBREAK:
+                return 'C13:bounded:list-item-parenthesis-typed-literal-or-case-breaks-the-list'
             if len(items) == 1 and _c13_single_non_identifier(items[0]):
                 return 'C13:bounded:get_parameters-single-non-identifier-argument'
-            if len(items) > 1 and classes & _C13_LISTBREAK:
-                return 'C13:bounded:list-item-parenthesis-typed-literal-or-case-breaks-the-list'
             return None
         if what == 'idlist-missing':
             if classes & _C13_LISTBREAK:
